@@ -41,7 +41,7 @@ RuleSets(Q, m) == UNION {kSubset(k, AllRules(Q)) : k \in 0..(IF m < Cardinality(
 Auts(Q, m) == {[fin |-> F, rules |-> R] : F \in SUBSET Q, R \in RuleSets(Q, m)}
 
 \* LET-bound values are evaluated once (a top-level definition that reads IOEnv is re-evaluated at every use)
-Cases ==
+Cases(dummy) ==
   LET as == SetToSeq(Auts(0..(NQ - 1), MaxR))
       mine == {i \in 1..Len(as) : i % NShards = Shard}
   IN IF Mode = "pair"
@@ -49,7 +49,7 @@ Cases ==
           IN UNION {{[id |-> <<i, j>>, A |-> as[i], B |-> bs[j]] : j \in 1..Len(bs)} : i \in mine}
      ELSE {[id |-> <<i>>, A |-> as[i]] : i \in mine}
 
-ASSUME LET cs == SetToSeq(Cases) IN
+ASSUME LET cs == SetToSeq(Cases(0)) IN
        /\ ndJsonSerialize(OutFile, cs)
        /\ PrintT(<<"generated", Len(cs)>>)
 =============================================================================
